@@ -18,6 +18,7 @@ theorem View.ind {P : View ν α → Prop}
     (tensor : ∀ id t, P (.tensor id t))
     (matrix : ∀ id m r c, P (.matrix id m r c))
     (matrixOf : ∀ s r c, P s → P (.matrixOf s r c))
+    (tmap : ∀ s, P s → P (.tmap s))
     (range : ∀ s rs, P s → P (.range s rs))
     (mask : ∀ s ms, P s → P (.mask s ms))
     (index : ∀ s p, P s → P (.index s p))
@@ -33,6 +34,7 @@ theorem View.ind {P : View ν α → Prop}
   | tensor id t => exact tensor id t
   | matrix id m r c => exact matrix id m r c
   | matrixOf s r c ih => exact matrixOf s r c ih
+  | tmap s ih => exact tmap s ih
   | range s rs ih => exact range s rs ih
   | mask s rs ih => exact mask s rs ih
   | index s rs ih => exact index s rs ih
